@@ -326,7 +326,7 @@ def run_case(ch: Choices, params: dict) -> dict:
     probes = {"raise_while_user_binding_exists": 0, "raise_in_callee_traced_after_caller": 0,
               "two_modules_mocked_in_one_compile": 0, "fault_fired": 0, "fault_not_reached": 0,
               "ops_ok": 0, "ops_raised": 0, "raise_in_wrapped_or_foreign_fn": 0,
-              "user_rebinds_between_ops": 0}
+              "user_rebinds_between_ops": 0, "ops_with_warnings_as_errors": 0}
     steps = 0
     # the enumeration: every (comptime fn of module 0.., position, kind) for ONE drawn
     # target function, all positions x all kinds
@@ -363,6 +363,9 @@ def run_case(ch: Choices, params: dict) -> dict:
     op_draws = [(ch.draw(3, "op_kind"), ch.draw(8, "op_target")) for _ in range(n_hist_ops)]
     # between two ops the *user* may rebind, newly bind or delete one of the shadowed names
     # in one of the modules (the snapshot of the next op is taken afterwards)
+    # environment fault: warnings promoted to errors (-W error / pytest filterwarnings=error)
+    # for the whole case, so that any warning issued while tracing becomes a raising step
+    warnings_as_errors = ch.draw(4, "warnings_as_errors") == 0
     mut_draws = [(ch.draw(3, "user_mutates") == 0, ch.draw(4, "mut_module"), ch.draw(3, "mut_name"),
                   ch.draw(4, "mut_action")) for _ in range(n_hist_ops + 1)]
     shapes = []
@@ -421,7 +424,13 @@ def run_case(ch: Choices, params: dict) -> dict:
                 log.add(pi, "user-mutation", mm_ % (len(mods) + 1), nm, ma_)
             before = snapshot(mods, hmod)
             try:
-                thunk()
+                if warnings_as_errors:
+                    with warnings.catch_warnings():
+                        warnings.simplefilter("error")
+                        thunk()
+                    probes["ops_with_warnings_as_errors"] += 1
+                else:
+                    thunk()
                 res = "ok"
                 probes["ops_ok"] += 1
             except BaseException as e:  # noqa: BLE001 - every exit must restore
